@@ -4,5 +4,5 @@ CONSTANTS
   Vals = {0, 1, 2}
   MaxBatch = 3
   Variant = "kf-override"
-INVARIANTS Consistent MarkOK ProofOK ResultOK KeysInjective LoadedEqualsLive
+INVARIANTS Consistent MarkOK ProofOK ResultOK KeysInjective LoadedEqualsLive BatchWriteSetOK
 CHECK_DEADLOCK FALSE
